@@ -1,5 +1,313 @@
+//! C03 — algorithms traverse exactly the stored edges, with their current weights.
+use super::lifecycle::{self, Arms};
+use super::{Prop, Tier};
 use crate::core::case::*;
 use crate::core::model::Model;
-use crate::core::real::G;
-use crate::runner::Ctx;
-pub fn check_traversal(_i: usize, _op: &Op, _g: &G, _m: &Model, _case: &Case, _cx: &mut Ctx) {}
+use crate::core::real::{self, Snap, G};
+use crate::core::rng::Rng;
+use crate::core::rt;
+use crate::gen;
+use crate::oracle::dist::{DistOracle, INF};
+use crate::oracle::close;
+use crate::runner::{Ctx, EnvResult};
+use graphrs::algorithms::centrality::{betweenness, closeness};
+use graphrs::algorithms::shortest_path::dijkstra;
+use std::collections::BTreeSet;
+
+pub struct C03Prop;
+pub static C03: C03Prop = C03Prop;
+
+fn policy(m: &Model) -> String {
+    if m.specs.multi {
+        "multi".into()
+    } else {
+        format!("{:?}", m.specs.dedupe)
+    }
+}
+
+/// describe the situation of the last op for the signature: which duplicate policy met which weight relation
+fn situation(op: &Op, m: &Model) -> String {
+    if let Op::AddEdge(e) = op {
+        return format!("add_edge on {} graph, policy {}, new weight {}", if m.specs.directed { "directed" } else { "undirected" }, policy(m), if e.weight().is_nan() { "nan" } else { "real" });
+    }
+    format!("{} policy {}", op.name(), policy(m))
+}
+
+pub fn check_traversal(step: usize, op: &Op, g: &G, m: &Model, case: &Case, cx: &mut Ctx) {
+    let _ = case;
+    // the reference is what get_all_nodes / get_all_edges of the REAL graph show (so a C01 defect is not misreported here)
+    let snap = match Snap::of(g) {
+        Ok(s) => s,
+        Err(p) => {
+            cx.fail("C03.panic", "observe", format!("observe panicked: {}", p.0));
+            return;
+        }
+    };
+    let n = snap.n();
+    let b = rt::budget(n, snap.edges.len());
+    let specs = m.specs;
+    let hop = DistOracle::new(&snap, true);
+    // (a) traversal neighbours, black box: nodes at hop distance exactly 1
+    for u in 0..n {
+        let name = snap.names[u].clone();
+        let r = rt::call("dijkstra::single_source(hop,cutoff=1)", b, || dijkstra::single_source(g, false, name.clone(), None, Some(1.0), false, false));
+        match r {
+            Err(p) => {
+                cx.fail("C03.panic", "single_source panicked", format!("after step {} single_source({:?}, hop, cutoff 1) panicked: {} [{}]", step, name, p.0, specs.short()));
+                return;
+            }
+            Ok(Err(e)) => {
+                cx.fail("C03.neighbours", "single_source failed", format!("after step {} single_source({:?}) failed: {:?}", step, name, e.kind));
+                return;
+            }
+            Ok(Ok(map)) => {
+                let got: BTreeSet<String> = map.iter().filter(|(_, v)| v.distance == 1.0).map(|(k, _)| k.clone()).collect();
+                let exp: BTreeSet<String> = hop.adj[u].iter().map(|x| snap.names[x.0].clone()).collect();
+                if got != exp {
+                    cx.fail("C03.neighbours", &format!("traversal neighbours: {}", situation(op, m)), format!("after step {} ({}): nodes one hop from {:?} are {:?} but the stored edges give {:?} [{}]", step, op.name(), name, got, exp, specs.short()));
+                    return;
+                }
+            }
+        }
+    }
+    cx.count("neighbour_checks");
+    // white box: the traversal lists themselves
+    #[cfg(graphrs_verif)]
+    {
+        if let Ok(s) = rt::call("verif_snapshot", real::OP_BUDGET, || g.verif_snapshot()) {
+            whitebox(step, op, &s, &snap, m, cx);
+            if !cx.viol.is_empty() {
+                return;
+            }
+        }
+    }
+    // (b), (c): weighted results equal those computed from get_all_edges() alone
+    if snap.edges.is_empty() || !snap.weighted() || snap.edges.iter().any(|e| e.2 < 0.0) {
+        return;
+    }
+    let wo = DistOracle::new(&snap, false);
+    for u in 0..n {
+        let name = snap.names[u].clone();
+        let r = rt::call("dijkstra::single_source(weighted)", b, || dijkstra::single_source(g, true, name.clone(), None, None, false, false));
+        match r {
+            Err(p) => {
+                cx.fail("C03.panic", "single_source panicked", format!("after step {} weighted single_source({:?}) panicked: {}", step, name, p.0));
+                return;
+            }
+            Ok(Err(e)) => {
+                cx.fail("C03.weighted_distance", "single_source failed", format!("after step {} weighted single_source({:?}) failed: {:?}", step, name, e.kind));
+                return;
+            }
+            Ok(Ok(map)) => {
+                for v in 0..n {
+                    let got = map.get(&snap.names[v]).map(|x| x.distance).unwrap_or(INF);
+                    let exp = wo.d[u][v];
+                    if !close(got, exp) {
+                        cx.fail(
+                            "C03.weighted_distance",
+                            &format!("stale traversal weight: {}", situation(op, m)),
+                            format!("after step {} ({}): weighted distance {:?} -> {:?} is {} but the edges in get_all_edges() give {} [{}]", step, op.to_json().to_string(), name, snap.names[v], got, exp, specs.short()),
+                        );
+                        return;
+                    }
+                }
+            }
+        }
+    }
+    cx.count("weighted_distance_checks");
+    if snap.edges.iter().all(|e| e.2 > 0.0) {
+        // closeness at 1e-9 always; betweenness only when ties are exact
+        for wf in [false, true] {
+            match rt::call("closeness_centrality(weighted)", b, || closeness::closeness_centrality(g, true, wf)) {
+                Ok(Ok(map)) => {
+                    let exp = wo.closeness(wf);
+                    for v in 0..n {
+                        let got = map.get(&snap.names[v]).copied().unwrap_or(f64::NAN);
+                        if !close(got, exp[v]) {
+                            cx.fail("C03.weighted_closeness", &format!("closeness from stale weights: {}", situation(op, m)), format!("after step {}: weighted closeness({:?}, wf={}) = {} but the stored edges give {} [{}]", step, snap.names[v], wf, got, exp[v], specs.short()));
+                            return;
+                        }
+                    }
+                }
+                Ok(Err(e)) => {
+                    cx.fail("C03.weighted_closeness", "closeness failed", format!("closeness failed: {:?}", e.kind));
+                    return;
+                }
+                Err(p) => {
+                    cx.fail("C03.panic", "closeness panicked", format!("after step {} weighted closeness panicked: {} [{}]", step, p.0, specs.short()));
+                    return;
+                }
+            }
+        }
+        if wo.exact {
+            match rt::call("betweenness_centrality(weighted)", b, || betweenness::betweenness_centrality(g, true, false)) {
+                Ok(Ok(map)) => {
+                    let exp = wo.betweenness(false, snap.directed);
+                    for v in 0..n {
+                        let got = map.get(&snap.names[v]).copied().unwrap_or(f64::NAN);
+                        if !close(got, exp[v]) {
+                            cx.fail("C03.weighted_betweenness", &format!("betweenness from stale weights: {}", situation(op, m)), format!("after step {}: weighted betweenness({:?}) = {} but the stored edges give {} [{}]", step, snap.names[v], got, exp[v], specs.short()));
+                            return;
+                        }
+                    }
+                }
+                Ok(Err(e)) => {
+                    cx.fail("C03.weighted_betweenness", "betweenness failed", format!("betweenness failed: {:?}", e.kind));
+                    return;
+                }
+                Err(p) => {
+                    cx.fail("C03.panic", "betweenness panicked", format!("after step {} weighted betweenness panicked: {} [{}]", step, p.0, specs.short()));
+                    return;
+                }
+            }
+            cx.count("weighted_centrality_checks");
+        }
+    }
+}
+
+#[cfg(graphrs_verif)]
+fn whitebox(step: usize, op: &Op, s: &graphrs::VerifSnapshot<String>, snap: &Snap, m: &Model, cx: &mut Ctx) {
+    let n = snap.n();
+    if s.successors_vec.len() != n || s.predecessors_vec.len() != n {
+        cx.fail("C03.traversal_index", "row count", format!("successors_vec / predecessors_vec have {} / {} rows for {} nodes", s.successors_vec.len(), s.predecessors_vec.len(), n));
+        return;
+    }
+    // expected: (v, min weight of stored u->v edges); NaN weights: NaN
+    let expect = |rev: bool| -> Vec<Vec<(usize, u64)>> {
+        let mut a: Vec<Vec<(usize, f64)>> = vec![vec![]; n];
+        let mut put = |u: usize, v: usize, w: f64| match a[u].iter_mut().find(|x| x.0 == v) {
+            Some(x) => {
+                if w < x.1 || (x.1.is_nan() && !w.is_nan()) {
+                    x.1 = w
+                }
+            }
+            None => a[u].push((v, w)),
+        };
+        for &(u, v, w) in &snap.edges {
+            if rev {
+                put(v, u, w);
+            } else {
+                put(u, v, w);
+                if !snap.directed && u != v {
+                    put(v, u, w);
+                }
+            }
+        }
+        a.into_iter()
+            .map(|l| {
+                let mut l: Vec<(usize, u64)> = l.into_iter().map(|(v, w)| (v, wbits(w))).collect();
+                l.sort();
+                l
+            })
+            .collect()
+    };
+    // weights are compared only on uniformly weighted or uniformly unweighted graphs (C03's quantifier)
+    let uniform = snap.edges.iter().all(|e| e.2.is_nan()) || snap.edges.iter().all(|e| !e.2.is_nan());
+    let check = |what: &str, got: &Vec<Vec<(usize, f64)>>, exp: &Vec<Vec<(usize, u64)>>, cx: &mut Ctx| {
+        for u in 0..n {
+            // per neighbour: the minimum listed weight; a neighbour may be listed twice only if it is the
+            // node itself on an undirected graph (a self-loop is pushed from both sides and never traversed)
+            let mut g: Vec<(usize, u64)> = vec![];
+            let mut dup_ok = true;
+            for x in &got[u] {
+                match g.iter_mut().find(|y| y.0 == x.0) {
+                    Some(y) => {
+                        if snap.directed || x.0 != u {
+                            dup_ok = false;
+                        }
+                        if x.1 < f64::from_bits(y.1) {
+                            y.1 = wbits(x.1);
+                        }
+                    }
+                    None => g.push((x.0, wbits(x.1))),
+                }
+            }
+            g.sort();
+            let same_nbrs = g.iter().map(|x| x.0).collect::<Vec<_>>() == exp[u].iter().map(|x| x.0).collect::<Vec<_>>();
+            let ok = dup_ok && same_nbrs && (!uniform || g == exp[u]);
+            if !ok {
+                let stale = same_nbrs && dup_ok;
+                let sig = if stale { format!("{} holds a stale weight: {}", what, situation(op, m)) } else { format!("{} neighbour set: {}", what, situation(op, m)) };
+                let show = |l: &Vec<(usize, u64)>| l.iter().map(|x| format!("{}:{}", snap.names[x.0], f64::from_bits(x.1))).collect::<Vec<_>>();
+                cx.fail(
+                    "C03.traversal_index",
+                    &sig,
+                    format!("after step {} ({}): {}[{:?}] = {:?} (raw {:?}) but the stored edges give (neighbour: min weight) {:?} [{}]", step, op.to_json().to_string(), what, snap.names[u], show(&g), got[u], show(&exp[u]), m.specs.short()),
+                );
+                return;
+            }
+        }
+    };
+    check("successors_vec", &s.successors_vec, &expect(false), cx);
+    if snap.directed {
+        check("predecessors_vec", &s.predecessors_vec, &expect(true), cx);
+    } else if s.predecessors_vec.iter().any(|l| !l.is_empty()) {
+        // undirected: unused by the algorithms; accepted if empty or a mirror of successors_vec
+        check("predecessors_vec", &s.predecessors_vec, &expect(false), cx);
+    }
+    cx.count("whitebox_checks");
+}
+
+impl Prop for C03Prop {
+    fn id(&self) -> &'static str {
+        "C03"
+    }
+    fn runs(&self, tier: Tier) -> u64 {
+        match tier {
+            Tier::Quick => 80_000,
+            Tier::Thorough => 1_500_000,
+        }
+    }
+    fn gen(&self, seed: u64, idx: u64, _tier: Tier) -> Case {
+        let mut rng = Rng::new(seed, "config");
+        let specs = Specs::from_index(idx as usize % 96);
+        let mut case = Case::new("C03", seed, specs);
+        // uniformly weighted or uniformly unweighted, never mixed (as the property restricts)
+        let regime = *rng.pick(&[gen::WeightRegime::AllNan, gen::WeightRegime::Dyadic, gen::WeightRegime::Dyadic, gen::WeightRegime::SmallInt, gen::WeightRegime::Nasty]);
+        let o = gen::HistOpts { specs, max_ops: 20, regime, derived: false, restart: rng.chance(1, 2), names_min: 3, names_max: 6, dup_bias: 45 };
+        let mut wr = Rng::new(seed, "workload");
+        case.ops = gen::gen_history(&mut wr, &o);
+        if regime != gen::WeightRegime::AllNan {
+            // tuple operations add unweighted edges: keep the history uniformly weighted
+            for op in case.ops.iter_mut() {
+                match op {
+                    Op::AddEdgeTuple(u, v) => *op = Op::AddEdge(E { u: u.clone(), v: v.clone(), w: wbits(regime.draw(&mut rng)), attr: None }),
+                    Op::AddEdgeTuples(ps) => *op = Op::AddEdges(ps.iter().map(|(u, v)| E { u: u.clone(), v: v.clone(), w: wbits(regime.draw(&mut rng)), attr: None }).collect()),
+                    _ => {}
+                }
+            }
+        }
+        let k = gen::keyings(seed, 2);
+        case.envs = vec![Env { keying: k[(idx % 2) as usize], pool: 1, sched: 0 }];
+        case
+    }
+    fn run_env(&self, case: &Case, _env: &Env, cx: &mut Ctx) {
+        let arms = Arms { c03: true, ..Default::default() };
+        let dup = cx.counters.clone();
+        let _ = dup;
+        if let Some((_g, m, _)) = lifecycle::drive(case, cx, &arms) {
+            // non-trivial: some pair received a second edge (ignored, replaced or parallel)
+            let mut second = false;
+            let mut t = Model::new(case.specs);
+            for op in &case.ops {
+                if let Op::AddEdge(e) = op {
+                    if t.edges.iter().any(|x| t.joins(x, &e.u, &e.v)) {
+                        second = true;
+                    }
+                }
+                t.apply(op);
+            }
+            if second && !m.edges.is_empty() {
+                cx.nt.push(crate::core::rng::mix(case.specs.index() as u64, lifecycle::ops_hash(&case.ops)));
+                cx.count(&format!("second_edge_histories.{}", policy(&m)));
+            }
+        }
+    }
+    fn cross(&self, _case: &Case, _results: &[EnvResult], _cx: &mut Ctx) {}
+    fn rule(&self) -> String {
+        "lifecycle histories (<= 20 ops) biased to second edges on existing pairs (smaller / equal / larger weight, same / opposite orientation) under KeepFirst / KeepLast / multi-edge, uniformly weighted or uniformly unweighted, all 96 specs; after EVERY op: hop-1 sets from single_source vs stored edges, weighted single_source distances, weighted closeness and betweenness vs the definitions evaluated on get_all_edges() of the real graph, and (hook) successors_vec / predecessors_vec vs min stored weight per pair. distinct_nontrivial = distinct (specs, history) in which some pair received a second edge and edges remain".into()
+    }
+    fn assumptions(&self) -> Vec<String> {
+        vec!["weighted betweenness is compared only when all weights are dyadic (ties exact); distances and closeness at 1e-9".into(), "non-negative weights; closeness/betweenness only with strictly positive weights".into()]
+    }
+}
